@@ -31,7 +31,7 @@ type family struct {
 	Name  string
 	Multi bool
 	SRIH  bool
-	MTB   uint32 // protocol MaxTraceableBlocks (0 = default)
+	MTB   uint32            // protocol MaxTraceableBlocks (0 = default)
 	HF    map[string]uint32 // hardfork activation heights (nil = all from genesis)
 }
 
@@ -78,6 +78,11 @@ type scenario struct {
 	world    *chainx.World
 	mu       sync.Mutex
 	tree     map[histKey]*treeNode
+	// plan G (ext_cross_test.go): a sequential scenario is ONE fixed history built block
+	// after block on one reference node
+	seq   bool
+	label string // short stable name of the history for violation keys
+	group string // path family (evidence counters)
 }
 
 func key(h []int) histKey { return histKey(fmt.Sprint(h)) }
@@ -143,6 +148,12 @@ func (sc *scenario) grow(h []int) error {
 		return err
 	}
 	defer n.Close()
+	return sc.growOn(n, w, h)
+}
+
+// growOn executes the last block of history h on reference node n (which is at
+// the state of h's prefix) and records the tree node.
+func (sc *scenario) growOn(n *chainx.Node, w *chainx.World, h []int) error {
 	tpl := sc.tpls[h[len(h)-1]]
 	// Nonces must not depend on how often a template was built elsewhere.
 	txs, err := tpl.Build(w)
@@ -573,10 +584,15 @@ func TestCheck(t *testing.T) {
 		// updated/activated at these heights and a restarted node re-derives which ones are active
 		{Name: "single-hf", MTB: 6, HF: map[string]uint32{"Aspidochelone": 0, "Basilisk": 0, "Cockatrice": 0, "Domovoi": 0, "Echidna": 4, "Faun": 5, "Gorgon": 6}},
 	}
+	// families of plan G only: the multi configuration of the repository's unit-test protocol file activates
+	// the hardforks up to Echidna at heights 1..5 and never Faun/Gorgon; here all of them are active from genesis
+	// (Policy.blockAccount revokes votes, destroy blocks the contract's hash, Gorgon's reward rules)
+	allHF := map[string]uint32{"Aspidochelone": 0, "Basilisk": 0, "Cockatrice": 0, "Domovoi": 0, "Echidna": 0, "Faun": 0, "Gorgon": 0}
+	allFams := append(append([]family{}, fams...), family{Name: "multi-faun", Multi: true, MTB: 8, HF: allHF})
 	depth := 2
 	pads := vk.Pick(r, []int{0, 1, 2}, []int{0, 1, 2, 3, 5})
 	if r.Replay != "" {
-		replay(r, fams, depth)
+		replay(r, allFams, depth)
 		return
 	}
 	var scs []*scenario
@@ -604,6 +620,9 @@ func TestCheck(t *testing.T) {
 				}
 			}
 		}
+		fams = nil
+	}
+	if os.Getenv("C01_ONLY") == "G" { // development aid: plan G alone
 		fams = nil
 	}
 	for _, f := range fams {
@@ -666,6 +685,32 @@ func TestCheck(t *testing.T) {
 	}
 	var blocks, hist, runs vk.Counter
 	states := vk.NewSet()
+	// plan G (ext_cross_test.go): cross-native side effects, restart at every later height. One
+	// base scenario per family owns the preamble; every path is a sequential scenario on top of it.
+	type xplan struct {
+		base  *scenario
+		paths []xpath
+	}
+	var xplans []xplan
+	if os.Getenv("C01_PAGES") == "" && os.Getenv("C01_TPLS") == "" {
+		for _, f := range allFams {
+			var paths []xpath
+			switch {
+			case f.Name == "multi-faun", f.Name == "multi", f.Name == "multi-srih" && r.Thorough():
+				paths = crossPaths(r.Thorough(), 6)
+			case f.Name == "single":
+				paths = crossPaths(r.Thorough(), 1) // one-block epochs: the committee is refreshed every block
+			case f.Name == "single-hf":
+				paths = hfPaths()
+			}
+			if len(paths) == 0 {
+				continue
+			}
+			base := &scenario{r: r, fam: f, pad: 0, depth: 0, tree: map[histKey]*treeNode{}}
+			scs = append(scs, base)
+			xplans = append(xplans, xplan{base, paths})
+		}
+	}
 	// stage 1: reference trees (level by level so that prefixes exist)
 	for _, sc := range scs {
 		n, _, err := sc.refNode(nil)
@@ -675,6 +720,94 @@ func TestCheck(t *testing.T) {
 		}
 		n.Close()
 	}
+	// stage 2 (a closure: plan G runs it on its own scenarios before the other plans build their trees)
+	runStage2 := func(scs []*scenario) {
+		type vjob struct {
+			sc *scenario
+			h  []int
+			v  variant
+		}
+		var vjobs []vjob
+		for _, sc := range scs {
+			each := func(h []int) {
+				hh := append([]int{}, h...)
+				if _, ok := sc.tree[key(hh)]; !ok {
+					return
+				}
+				hist.Inc()
+				for _, v := range sc.vs {
+					vjobs = append(vjobs, vjob{sc, hh, v})
+				}
+			}
+			if sc.fixed != nil {
+				for _, f := range sc.fixed {
+					each(f)
+				}
+				continue
+			}
+			enumerate(len(sc.tpls), sc.depth, each)
+		}
+		r.Parallel(len(vjobs), func(i int) {
+			j := vjobs[i]
+			nb, rec := j.sc.runVariant(j.h, j.v)
+			blocks.Add(nb)
+			runs.Inc()
+			for d := 1; d <= len(j.h); d++ {
+				tn := j.sc.tree[key(j.h[:d])]
+				states.Add(fmt.Sprintf("%s/%d/%s/%s", j.sc.fam.Name, d, tn.obs.StateRoot, j.v.Name))
+			}
+			if rec != nil && os.Getenv("C01_XLIST") != "" { // development aid: list failing cases compactly, no violation
+				d := ""
+				if len(rec.Diff) > 0 {
+					d = rec.Diff[0][:min(len(rec.Diff[0]), 40)]
+				}
+				fmt.Printf("XLIST %s %s %s at=%d %s %s\n", rec.Family, j.sc.label, rec.Variant, rec.At, rec.What, d)
+				return
+			}
+			if rec != nil {
+				r.Outcome("variant-differs")
+				if j.sc.label != "" {
+					// plan G: <what>:<family>:<path group>:<path>:<variant> (a path name says setup / event@height)
+					r.Violation(fmt.Sprintf("%s:%s:%s:%s:%s", rec.What[:min(len(rec.What), 28)], rec.Family, j.sc.group, j.sc.label, rec.Variant), rec)
+					return
+				}
+				r.Violation(fmt.Sprintf("%s:%s:%s:pad%d:%s", rec.What[:min(len(rec.What), 28)], rec.Family, rec.Variant, rec.Pad, strings.Join(rec.History, ",")), rec)
+			} else {
+				r.Outcome("agree")
+				if j.sc.seq {
+					r.Outcome("planG:" + j.sc.group + ":agree")
+				}
+				r.Sample(map[string]any{"family": j.sc.fam.Name, "pad": j.sc.pad, "history": j.sc.tree[key(j.h)].names, "variant": j.v.Name, "final_root": j.sc.tree[key(j.h)].obs.StateRoot})
+			}
+		})
+	}
+	var xscs []*scenario
+	for _, xp := range xplans {
+		xscs = append(xscs, crossScenarios(r, xp.base, xp.paths)...)
+	}
+	xbuilt := make([]bool, len(xscs))
+	r.Parallel(len(xscs), func(i int) {
+		if err := xscs[i].growPath(); err != nil {
+			// every path of plan G is designed to be applicable: a path that cannot be built is a harness error
+			crossFatal(xscs[i].fam.Name, xscs[i].label, err)
+		}
+		xbuilt[i] = true
+		blocks.Add(xscs[i].depth)
+	})
+	xgroups := map[string][3]int{} // group -> paths, blocks, variant runs
+	for i, sc := range xscs {
+		if !xbuilt[i] {
+			continue // deadline
+		}
+		g := xgroups[sc.fam.Name+"/"+sc.group]
+		g[0]++
+		g[1] += sc.depth
+		g[2] += len(sc.vs)
+		xgroups[sc.fam.Name+"/"+sc.group] = g
+	}
+	// plan G runs first and completely (reference paths above, variants here): its cases are the cheap and
+	// sharp ones, a deadline must cut the broad plans, not them
+	runStage2(xscs)
 	var level [][]int
 	level = append(level, []int{})
 	var broken sync.Map
@@ -689,7 +822,7 @@ func TestCheck(t *testing.T) {
 		}
 		var jobs []job
 		for _, sc := range scs {
-			if d > sc.depth {
+			if d > sc.depth || sc.seq {
 				continue
 			}
 			var hs [][]int
@@ -734,49 +867,8 @@ func TestCheck(t *testing.T) {
 			blocks.Inc()
 		})
 	}
-	// stage 2: variants over all complete histories
-	type vjob struct {
-		sc *scenario
-		h  []int
-		v  variant
-	}
-	var vjobs []vjob
-	for _, sc := range scs {
-		each := func(h []int) {
-			hh := append([]int{}, h...)
-			if _, ok := sc.tree[key(hh)]; !ok {
-				return
-			}
-			hist.Inc()
-			for _, v := range sc.vs {
-				vjobs = append(vjobs, vjob{sc, hh, v})
-			}
-		}
-		if sc.fixed != nil {
-			for _, f := range sc.fixed {
-				each(f)
-			}
-			continue
-		}
-		enumerate(len(sc.tpls), sc.depth, each)
-	}
-	r.Parallel(len(vjobs), func(i int) {
-		j := vjobs[i]
-		nb, rec := j.sc.runVariant(j.h, j.v)
-		blocks.Add(nb)
-		runs.Inc()
-		for d := 1; d <= len(j.h); d++ {
-			tn := j.sc.tree[key(j.h[:d])]
-			states.Add(fmt.Sprintf("%s/%d/%s/%s", j.sc.fam.Name, d, tn.obs.StateRoot, j.v.Name))
-		}
-		if rec != nil {
-			r.Outcome("variant-differs")
-			r.Violation(fmt.Sprintf("%s:%s:%s:pad%d:%s", rec.What[:min(len(rec.What), 28)], rec.Family, rec.Variant, rec.Pad, strings.Join(rec.History, ",")), rec)
-		} else {
-			r.Outcome("agree")
-			r.Sample(map[string]any{"family": j.sc.fam.Name, "pad": j.sc.pad, "history": j.sc.tree[key(j.h)].names, "variant": j.v.Name, "final_root": j.sc.tree[key(j.h)].obs.StateRoot})
-		}
-	})
+	// stage 2: variants over all complete histories (plan G ran already)
+	runStage2(scs)
 	var names []string
 	vs := variants(r, 2)
 	for _, v := range vs {
@@ -786,20 +878,55 @@ func TestCheck(t *testing.T) {
 		names = append(names[:24], fmt.Sprintf("... %d more", len(vs)-24))
 	}
 	roots := vk.NewSet()
-	for _, sc := range scs {
+	for _, sc := range append(append([]*scenario{}, scs...), xscs...) {
 		for _, tn := range sc.tree {
 			roots.Add(sc.fam.Name + tn.obs.StateRoot)
 		}
 	}
+	// plan G counters: per family/group the number of paths, reference blocks, variant runs, and in how
+	// many paths the event really changed the committee / the validators / the candidate list later on
+	xcount := map[string]map[string]int{}
+	xoutcomes := vk.NewSet()
+	for i, sc := range xscs {
+		if !xbuilt[i] {
+			continue
+		}
+		k := sc.fam.Name + "/" + sc.group
+		if xcount[k] == nil {
+			g := xgroups[k]
+			xcount[k] = map[string]int{"paths": g[0], "reference_blocks": g[1], "variant_runs": g[2]}
+		}
+		h := sc.fixed[0]
+		first := sc.tree[key(h[:1])].obs
+		com, val, enr := false, false, false
+		for d := 2; d <= len(h); d++ {
+			o := sc.tree[key(h[:d])].obs
+			com = com || o.Committee != first.Committee
+			val = val || o.NextVals != first.NextVals
+			enr = enr || o.Enroll != first.Enroll
+		}
+		last := sc.tree[key(h)].obs
+		xoutcomes.Add(sc.fam.Name + last.Committee + "|" + last.NextVals + "|" + last.Enroll + "|" + last.Policy + "|" + last.Roles)
+		for name, b := range map[string]bool{"committee_changed": com, "validators_changed": val, "candidates_changed": enr} {
+			if b {
+				xcount[k][name]++
+			}
+		}
+	}
 	r.Finish(map[string]any{
+		"plan_G_groups":                 xcount,
+		"plan_G_paths":                  len(xscs),
+		"plan_G_distinct_final_answers": xoutcomes.Len(),
+		"plan_G_templates":              min(len(xscs), 1) * len(crossTemplates()),
+		"plan_G_probe_parts_dropped":    int(probeDropped.Load()),
 		"states":                        states.Len(),
 		"transitions":                   int(blocks.Get()),
 		"traces_validated_against_impl": int(runs.Get()),
 		"histories":                     int(hist.Get()),
 		"distinct_state_roots":          roots.Len(),
-		"plans":                         "A: full alphabet of the tier, depth 2, all variants; B (thorough only): quick alphabet, depth 3, basic variants; C (single families): value flip/delete/re-create alphabet, depth 5, pruning/GC/latest-state and restart variants; D (single families): Policy whitelisted-method fee set / set again / removed / used, depth 4, same variants; F (single families): oracle request answered 0..MaxTraceableBlocks+2 blocks later, all variants; E (single families): candidate life cycle toggles (vote / registration) + idle blocks, depth 7 (<= 2 idle) / 8, restart variants",
+		"plans":                         "A: full alphabet of the tier, depth 2, all variants; B (thorough only): quick alphabet, depth 3, basic variants; C (single families): value flip/delete/re-create alphabet, depth 5, pruning/GC/latest-state and restart variants; D (single families): Policy whitelisted-method fee set / set again / removed / used, depth 4, same variants; F (single families): oracle request answered 0..MaxTraceableBlocks+2 blocks later, all variants; E (single families): candidate life cycle toggles (vote / registration) + idle blocks, depth 7 (<= 2 idle) / 8, restart variants; G (multi; single for designate/setters; single-hf for the block list across Faun): cross-native side effects (Policy block/unblock of candidate / voter / committee member / NEO holder / contract, Management destroy/update of a voting contract, deploy of a blocked hash, re-designation of notary/oracle/state validator nodes with the old list used in the same block, setters of NEO/Policy/Notary/Oracle values) at epoch phases first/inner/last block, history continued over two epoch boundaries + probe block, replayed with ONE restart after block k for every k from the block before the event on",
 		"block_alphabet":                tplNames(r),
-		"families":                      []string{"single", "single-srih", "multi", "multi-srih", "single-hf (Echidna@4, Faun@5, Gorgon@6)"},
+		"families":                      []string{"single", "single-srih", "multi", "multi-srih", "single-hf (Echidna@4, Faun@5, Gorgon@6)", "multi-faun (plan G only: 4/6 with every hardfork from genesis; 'multi' has Echidna@5 and no Faun)"},
 		"preamble_pads":                 pads,
 		"variants":                      names,
 		"variant_count":                 len(vs),
@@ -835,7 +962,11 @@ func replay(r *vk.Run, fams []family, depth int) {
 		os.Exit(3)
 	}
 	// names are stable across tiers; rebuild the alphabet from the recorded names
-	local := append(append(flipTemplates(), settingTemplates()...), lifecycleTemplates()...)
+	local := append(append(append(flipTemplates(), settingTemplates()...), lifecycleTemplates()...), crossTemplates()...)
+	seq := false // plan G histories are built on one reference node
+	for _, name := range c.History {
+		seq = seq || strings.HasPrefix(name, "x-")
+	}
 	var tpls []chainx.Tpl
 	for _, name := range c.History {
 		found := false
@@ -865,7 +996,14 @@ func replay(r *vk.Run, fams []family, depth int) {
 				os.Exit(3)
 			}
 			n.Close()
-			for d := 1; d <= len(h); d++ {
+			if seq {
+				sc.fixed = [][]int{h}
+				if err := sc.growPath(); err != nil {
+					fmt.Println("replay: grow:", err)
+					os.Exit(3)
+				}
+			}
+			for d := 1; d <= len(h) && !seq; d++ {
 				if err := sc.grow(h[:d]); err != nil {
 					fmt.Println("replay: grow:", err)
 					os.Exit(3)
